@@ -16,7 +16,7 @@ under the controlled-thread explorer mc/thr.py, every schedule within a deviatio
 
 Oracle = invariants on the recorded trace (task, step, virtual time, thread) - see World.
 """
-import gc, itertools, sys, threading, queue
+import gc, itertools, sys, threading, time, queue
 from mc.engine import explore, pmap, Ctx, Divergence
 from mc.report import Report
 
@@ -182,7 +182,7 @@ class Rec (object):
 
 
 class World (object):
-  def __init__ (self, ctx, prog, R, now, mode, twin=False, env_choices=True):
+  def __init__ (self, ctx, prog, R, now, mode, twin=None, env_choices=True):
     self.ctx = ctx; self.prog = prog; self.R = R; self.now = now; self.mode = mode; self.twin = twin
     self.env_choices = env_choices
     self.sch = None
@@ -195,11 +195,11 @@ class World (object):
     self.nsteps = 0
     self.nselect = 0
     self.nrand = 0
+    self.ntwins = 0
     self.exited = False
     self.abort = None
     self.horizon = False
     self.on_sched_thread = None   # callable (part 2)
-    self.raiser = None
     self.fd_at = None             # part 2: readiness offsets fixed by the program instead of explored
 
   # ---- recording ----------------------------------------------------------------------------
@@ -268,7 +268,6 @@ class World (object):
         r.fd = VFd(self, r.name, None if at is None else T0 + at)
     for r in self.recs:
       if r.kind == "t":
-        if "!" in r.spec and self.raiser is None: self.raiser = r.idx
         if r.idx == 0:
           r.style = "subclass"
           r.obj = cls["ProgTask"](self, r)
@@ -523,7 +522,7 @@ def body (w, r):
     w.step_begin(r, i)
     if op == "!":
       w.consume("%s.%d" % (r.name, i))
-      if w.twin:                    # differential twin: the same task ends here instead of raising
+      if w.twin == r.idx:           # differential twin: the same task ends here instead of raising
         r.state = "done"; w.end(); return
       r.state = "raised"; w.end()
       raise ScriptError("%s raises at step %d" % (r.name, i))
@@ -675,7 +674,7 @@ def _mods ():
   return R, U
 
 
-def run_inline (ctx, prog, twin=False):
+def run_inline (ctx, prog, twin=None):
   from mc.env import FakePinger
   R, U = _mods()
   clock = VClockX()
@@ -710,33 +709,33 @@ def run_inline (ctx, prog, twin=False):
 
 
 def run_inline_checked (ctx, prog):
-  """One execution plus, when a task of the program raises, the differential twin (the same task returning
+  """One execution plus, for every task that raised in it, the differential twin (the same task returning
   instead of raising, same environment choices): everything the other entities did must be identical."""
   w = run_inline(ctx, prog)
-  if w.raiser is not None and not w.abort:
-    r = w.recs[w.raiser]
-    if r.state == "raised":
+  if not w.abort:
+    for r in w.recs:
+      if r.state != "raised": continue
       ctx2 = Ctx(ctx.choices())
       try:
-        w2 = run_inline(ctx2, prog, twin=True)
-        same = (len(ctx2.trace) == len(ctx.trace) and w2.observation(w.raiser) == w.observation(w.raiser)
-                and w2.trace == w.trace)
-        diff = "" if same else _first_diff(w, w2)
+        w2 = run_inline(ctx2, prog, twin=r.idx)
+        same = (len(ctx2.trace) == len(ctx.trace) and w2.trace == w.trace and w2.observation(r.idx) == w.observation(r.idx))
+        diff = "" if same else _first_diff(w, w2, r.idx)
       except Divergence as e:
         same = False; diff = "the environment was consulted differently (%s)" % e
+      w.ntwins += 1
       if not same:
         w.fail("raise-isolation:others-differ-from-run-without-the-raise",
                "with %s raising, the other entities behave differently than when it simply ends: %s" % (r.name, diff))
   return w
 
 
-def _first_diff (w, w2):
+def _first_diff (w, w2, k):
   for a, b in zip(w.trace, w2.trace):
     if a != b: return "trace diverges at %r vs %r" % (a, b)
   if len(w.trace) != len(w2.trace):
     lo = min(len(w.trace), len(w2.trace))
     return "trace has %d steps vs %d (first extra: %r)" % (len(w.trace), len(w2.trace), (w.trace[lo:] or w2.trace[lo:])[0])
-  return "received values differ: %r vs %r" % (w.observation(w.raiser), w2.observation(w.raiser))
+  return "observations differ: %r vs %r" % (w.observation(k), w2.observation(k))
 
 
 _SPACE = None        # the program space of the suite being run (built before the pool forks)
@@ -748,6 +747,7 @@ def _violation (rep, w, replay):
 
 def _inline_worker (item):
   lo, step, dev = item
+  t_cpu = time.process_time()
   rep = Report(PID, "model_checking")
   old = sys.stdout, sys.stderr
   sys.stdout = sys.stderr = _Null()
@@ -759,6 +759,7 @@ def _inline_worker (item):
       def on_exec (ctx, w, prog=prog):
         rep.evaluations += 1
         rep.transitions += w.nsteps + w.nselect
+        if w.ntwins: rep.extra["differential_twin_runs"] = rep.extra.get("differential_twin_runs", 0) + w.ntwins
         rep.outcome((w.observation(), tuple(k for k, _ in w.bad)))
         if w.bad:
           _violation(rep, w, dict(part="inline", prog=_prog_to_json(prog), choices=ctx.choices()))
@@ -772,6 +773,7 @@ def _inline_worker (item):
     gc.collect(); gc.enable()
     sys.stdout, sys.stderr = old
   rep.extra["programs_inline"] = n
+  rep.extra["cpu_ms_inline"] = int((time.process_time() - t_cpu) * 1000)
   return rep
 
 
@@ -837,6 +839,7 @@ def run_threaded (ctx, prog, fd_at, funcs=HANDOFF, max_points=8000, keep_log=Fal
   sch = R.Scheduler(isDefaultScheduler=True, startInThread=True, threaded_selecthub=True)
   R.defaultScheduler = sch
   w.on_sched_thread = lambda: S.cur is not None and S.cur.obj is sch._thread
+  sch._random = w.rand            # 0.0: the priority-0.5 task is never deferred in this part
   w.build(sch)
   instants = sorted(set(T0 + v for v in fd_at.values()))
   if instants:
@@ -880,6 +883,7 @@ def _thr_first (item):
 
 def _thr_worker (item):
   pi, funcs, bound, prefixes = item
+  t_cpu = time.process_time()
   prog, fd_at = THR_PROGRAMS[pi]
   rep = Report(PID, "model_checking")
   old = sys.stdout, sys.stderr
@@ -904,12 +908,13 @@ def _thr_worker (item):
   finally:
     gc.collect(); gc.enable()
     sys.stdout, sys.stderr = old
+  rep.extra["cpu_ms_threaded"] = int((time.process_time() - t_cpu) * 1000)
   return rep
 
 
 def threaded_configs (cfg):
   """(funcs, deviation bound)"""
-  if cfg.quick: return [(HANDOFF, 2)]
+  if cfg.quick: return [(HANDOFF, 2), (None, 1)]
   return [(HANDOFF, 3), (None, 2)]
 
 
